@@ -137,7 +137,7 @@ func c47AKE(c *Ctx) {
 		if sp.variant != "" {
 			name += " (" + sp.variant + ")"
 		}
-		w := &pathWalker{env: newEnv(), assumeErrNil: true}
+		w := &pathWalker{env: newEnv(), assumeErrNil: true, noAuto: true}
 		w.env.bind(msgType, msgT[sp.msg])
 		switch sp.variant {
 		case "cmp>0":
@@ -321,7 +321,7 @@ func c47Fragment(c *Ctx) {
 		for n := int64(0); n <= 3; n++ {
 			for K := int64(0); K <= 3; K++ {
 				for N := int64(0); N <= 3; N++ {
-					w := &pathWalker{env: newEnv(), assumeErrNil: true}
+					w := &pathWalker{env: newEnv(), assumeErrNil: true, noAuto: true}
 					for _, v := range kv {
 						w.env.bind(v, k)
 					}
